@@ -185,6 +185,7 @@ class Interp:
         from . import prims
         self.prims = prims
         self.trace = False
+        self.tyenv = [{}]     # stack: generic parameter name -> (crate, type index) bound at the call
 
     # ------------------------------------------------------------ types
     def tn_lin(self, cr, tix):
@@ -193,6 +194,11 @@ class Interp:
         k = t["k"]
         if k == "param":
             nm = t["name"]
+            b = self.tyenv[-1].get(nm)
+            if b is not None and b != (cr.name, tix):
+                c2 = self.facts.crates[b[0]]
+                if c2.types[b[1]]["k"] != "param" or c2.types[b[1]]["name"] != nm:
+                    return self.tn_lin(c2, b[1])
             if nm in self.ctx.param_len:
                 return self.ctx.param_len[nm]
             raise Undecided("no length for type parameter %s" % nm)
@@ -236,6 +242,13 @@ class Interp:
     def sizeof(self, cr, tix):
         t = cr.types[tix]
         k = t["k"]
+        if k == "param":
+            b = self.tyenv[-1].get(t["name"])
+            if b is not None:
+                c2 = self.facts.crates[b[0]]
+                t2 = c2.types[b[1]]
+                if not (t2["k"] == "param" and t2["name"] == t["name"]):
+                    return self.sizeof(c2, b[1])
         if k == "uint" or k == "int":
             nm = t["name"]
             if nm in ("usize", "isize"):
@@ -264,6 +277,13 @@ class Interp:
         """types whose values are modelled as byte strings."""
         t = cr.types[tix]
         k = t["k"]
+        if k == "param":
+            b = self.tyenv[-1].get(t["name"])
+            if b is not None:
+                c2 = self.facts.crates[b[0]]
+                t2 = c2.types[b[1]]
+                if not (t2["k"] == "param" and t2["name"] == t["name"]):
+                    return self.is_bytes_ty(c2, b[1])
         if k == "uint" and t["name"] == "u8":
             return True
         if k == "adt" and t["adt"].endswith("::Array"):
@@ -858,7 +878,7 @@ class Interp:
         body = self.find_body(fr.crate, fn)
         if body is not None:
             cr, b = body
-            return self.inline(st, cr, b, ci["args"], fr.depth + 1)
+            return self.inline(st, cr, b, ci["args"], fr.depth + 1, targs=fn.get("resolved", fn).get("args") if fn.get("resolved", {}).get("path") == b["path"] else fn.get("args"), caller_cr=fr.crate)
         raise Undecided("unknown callee %s%s" % (fn["path"], (" => " + fn["resolved"]["path"]) if "resolved" in fn else ""))
 
     def find_body(self, cr, fn):
@@ -884,7 +904,26 @@ class Interp:
                     return c2, b
         return None
 
-    def inline(self, st, cr, body, args, depth):
+    def inline(self, st, cr, body, args, depth, targs=None, caller_cr=None):
+        env = {}
+        if targs is not None and caller_cr is not None:
+            names = body.get("generics") or []
+            if len(names) == len(targs):
+                outer = self.tyenv[-1]
+                for nm, a in zip(names, targs):
+                    if "ty" in a:
+                        t = caller_cr.types[a["ty"]]
+                        if t["k"] == "param" and t["name"] in outer:
+                            env[nm] = outer[t["name"]]
+                        else:
+                            env[nm] = (caller_cr.name, a["ty"])
+        self.tyenv.append(env)
+        try:
+            return self._inline(st, cr, body, args, depth)
+        finally:
+            self.tyenv.pop()
+
+    def _inline(self, st, cr, body, args, depth):
         if depth > MAX_DEPTH:
             raise Undecided("inline depth")
         fr = Frame(self, cr, body, depth)
